@@ -355,6 +355,43 @@ fn w_roundtrip(ctx: &mut Ctx) {
             Ok(Err(e)) => bad("load_failed_on_valid_file", json!({"error": e, "with_settings_argument": true})),
             Err(panic) => bad("load_panicked_on_valid_file", json!({"panic": panic, "with_settings_argument": true})),
         }
+        // (4) "overrides" means the stored settings play no part when an argument is given, and the argument is
+        // what gets validated: (a) a file whose STORED settings this build cannot use loads fine with a usable
+        // argument; (b) a sound file with an unusable argument is an error, not a panic
+        if case % 3 == 0 {
+            if let Ok(mut v) = serde_json::from_slice::<Value>(&bytes) {
+                match case % 2 {
+                    0 => v["settings"]["direct_solve_method"] = json!("no-such-backend"),
+                    _ => v["settings"]["direct_kkt_solver"] = json!(false),
+                }
+                let edited = serde_json::to_vec(&v).unwrap_or_default();
+                ctx.eval(1);
+                match load_bytes(&edited, Some(st2.clone())) {
+                    Ok(Ok(l)) => {
+                        if let Some(d) = settings_diff(&st2, &l.settings) {
+                            bad("settings_argument_not_used", json!({"diff": d, "stored_settings_unusable": true}));
+                        }
+                    }
+                    Ok(Err(e)) => bad("settings_argument_does_not_override_unusable_stored_settings", json!({"error": e, "stored": v["settings"]["direct_solve_method"], "stored_direct_kkt_solver": v["settings"]["direct_kkt_solver"]})),
+                    Err(panic) => bad("load_panicked_on_valid_file", json!({"panic": panic, "stored_settings_unusable": true})),
+                }
+                // without the argument the same file must be refused
+                match load_bytes(&edited, None) {
+                    Ok(Ok(_)) => bad("unusable_stored_settings_accepted", json!({"stored": v["settings"]["direct_solve_method"], "stored_direct_kkt_solver": v["settings"]["direct_kkt_solver"]})),
+                    Ok(Err(_)) => {}
+                    Err(panic) => bad("load_panicked_on_unusable_stored_settings", json!({"panic": panic})),
+                }
+            }
+            let mut st_bad = st2.clone();
+            st_bad.direct_solve_method = "no-such-backend".to_string();
+            ctx.eval(1);
+            match load_bytes(&bytes, Some(st_bad)) {
+                Ok(Ok(_)) => bad("unusable_settings_argument_accepted", json!({})),
+                Ok(Err(_)) => {}
+                Err(panic) => bad("load_panicked_on_unusable_settings_argument", json!({"panic": panic})),
+            }
+            ctx.bump("override_with_exactly_one_unusable_settings_object");
+        }
         if let Some((o, d)) = fail {
             ctx.violation(&o, &o, wl, case, json!({"problem": p.to_json(), "settings": problem::settings_json(&st), "check": d, "file": String::from_utf8_lossy(&bytes)}));
         }
